@@ -1,7 +1,7 @@
 (* Property C09 -- theorems only; each is closed by `exact` of a lemma proved in RG.Ast.*, RG.Engine.RunState
    (generic) and Inst_Walker.v / Inst_RunState.v (about tables REGENERATED from /repo on this run). *)
 From Coq Require Import List NArith Bool Arith Lia String.
-From RG.Ast Require Import Tree Walker WalkerProof WalkSpec WfCheck.
+From RG.Ast Require Import Tree Walker WalkerProof WalkSpec WfCheck WalkPanic.
 From RG.Engine Require Import RunState.
 From RGW Require Import Gen_AstSchema Gen_Walker Gen_WalkTables Gen_WalkState Gen_RunnerState Inst_Walker Inst_RunState.
 Import ListNotations.
@@ -49,6 +49,18 @@ Theorem C09_history_independent :
 Proof. intros. apply history_independent. exact gen_policy_ok. Qed.
 Print Assumptions C09_history_independent.
 
+(* files whose analysis panicked in a user-supplied callback: for every tree and every set of visits at which the
+   callback panics, the visits delivered are exactly the specified ones up to and including the first panicking one,
+   and the ancestor stack is unwound to what it was (Push / defer Pop) *)
+Theorem C09_panicking_callback_unwinds :
+  gen_frame = FrameDeferPop /\
+  forall (P : ev -> bool) fuel n st E, wf gen_spec n -> (height n < fuel)%nat ->
+  let evs := events gen_spec n (w_dead st) (w_func st) (w_stack st) in
+  walk AF FrameDeferPop gen_table P fuel n st E =
+    if hasp P evs then RPanic (w_stack st) (E ++ cut P evs) else ROk st (E ++ evs).
+Proof. exact (conj frame_is_defer_pop walk_panic_gen). Qed.
+Print Assumptions C09_panicking_callback_unwinds.
+
 Theorem C09_inventory_covered :
   strs_eqb gen_fields_RunnerState known_RunnerState = true /\ strs_eqb gen_fields_rulesRunner known_rulesRunner = true /\
   strs_eqb gen_fields_filterParams known_filterParams = true /\ strs_eqb gen_fields_astWalker known_astWalker = true /\
@@ -71,6 +83,13 @@ Example c09_restores_from_dirty_context :
                    map (fun e => (e_id e, e_func e)) (firstn 3 evs))
   | _ => (false, None, [], O, [])
   end = (true, Some 77%N, [90; 91]%N, 16%nat, [(0, Some 77); (1, Some 77); (2, Some 77)]%N).
+Proof. vm_compute. reflexivity. Qed.
+(* the callback panics at the visit of node 9 (inside the Body of the if): 10 visits delivered, path unwound *)
+Example c09_panic_demo :
+  match walk AF gen_frame gen_table (fun e => N.eqb (e_id e) 9) 20 (demo_tree None) {| w_dead := false; w_func := None; w_stack := [90]%N |} [] with
+  | RPanic stk evs => (stk, map e_id evs)
+  | _ => ([], [])
+  end = ([90]%N, [0; 1; 2; 3; 4; 5; 6; 7; 8; 9]%N).
 Proof. vm_compute. reflexivity. Qed.
 (* a history of three runs with adversarial left-overs *)
 Example c09_history :
